@@ -350,3 +350,36 @@ func predIndex(b, pred *ssa.BasicBlock) int {
 	}
 	return -1
 }
+
+// unspill looks through the heap cell go/ssa creates for a variable captured by a
+// closure: a load of an Alloc that is stored exactly once yields the stored value.
+func unspill(v ssa.Value) ssa.Value {
+	for i := 0; i < 4; i++ {
+		u, ok := v.(*ssa.UnOp)
+		if !ok || u.Op != token.MUL {
+			return v
+		}
+		al, ok := u.X.(*ssa.Alloc)
+		if !ok {
+			return v
+		}
+		var stored ssa.Value
+		n := 0
+		for _, ref := range *al.Referrers() {
+			if st, ok := ref.(*ssa.Store); ok && st.Addr == ssa.Value(al) {
+				stored = st.Val
+				n++
+			}
+		}
+		if n != 1 {
+			return v
+		}
+		v = stored
+	}
+	return v
+}
+
+func isBuiltinCall(c *ssa.CallCommon) bool {
+	_, ok := c.Value.(*ssa.Builtin)
+	return ok
+}
